@@ -57,7 +57,11 @@ template<class L, class R, bool WithQuotient>
             R r = build<R>(b);
             bool inexact = !(a % b).is_zero();
             // ---- operator / and %
-            bool pre = cv::fits<RDiv>(a) && cv::fits<RDiv>(b) && cv::fits<RMod>(a) && cv::fits<RMod>(b) && !(has_lowest && a == cv::lowest_of<RDiv>() && b == Big(-1));
+            // built-in reps: the operator sees the operands after the usual arithmetic conversions (values those conversions
+            // change are out of scope). elastic reps are specified by value (C05): every operand pair is in scope, whatever
+            // signedness the library gives the result
+            constexpr bool builtin_pair = cv::is_builtin_int<RepL> && cv::is_builtin_int<RepR>;
+            bool pre = !builtin_pair || (cv::fits<RDiv>(a) && cv::fits<RDiv>(b) && cv::fits<RMod>(a) && cv::fits<RMod>(b) && !(has_lowest && a == cv::lowest_of<RDiv>() && b == Big(-1)));
             if (!pre)
                 vf::skip_pre();
             else {
@@ -133,6 +137,9 @@ template<class Rep, int E, int Radix = 2>
 using SI = scaled_integer<Rep, power<E, Radix>>;
 using E7 = cnl::elastic_integer<7>;
 using E15 = cnl::elastic_integer<15>;
+using EU7 = cnl::elastic_integer<7, unsigned>;
+using EU15 = cnl::elastic_integer<15, unsigned>;
+using E3 = cnl::elastic_integer<3>;
 using E31 = cnl::elastic_integer<31>;
 
 static void group()
